@@ -54,6 +54,11 @@ def build(pid, log):
         mods = ['FCA.Props.' + pid]
         gen = os.path.join(LEAN, 'FCA', 'Props', pid + 'Gen.lean')
         have_gen = os.path.exists(gen)
+        gen_source = {'C08': 'Predicates', 'C16': 'Junctors', 'C12': 'Formats'}.get(pid)
+        declined = bool(gen_source) and str(info['extraction'].get(gen_source, '')).startswith('declined')
+        if declined:
+            info['notes'].append('extraction declined (%s): the theorems over the regenerated kernels are not checked against the '
+                                 'current source on this run' % info['extraction'][gen_source])
         src_files = [os.path.join(LEAN, 'FCA', 'Props', pid + '.lean')]
         have_props = os.path.exists(src_files[0])
         if have_props:
@@ -65,7 +70,10 @@ def build(pid, log):
             log(r.stdout[-3000:])
             info['notes'].append('lake build FCA.Props.%s failed' % pid)
         gen_ok = None
-        if have_gen:
+        if have_gen and declined:
+            gen_ok = False
+            src_files.append(gen)
+        elif have_gen:
             r = sh(['lake', 'build', 'FCA.Props.%sGen' % pid], cwd=LEAN)
             gen_ok = r.returncode == 0
             if not gen_ok:
@@ -165,8 +173,12 @@ def main():
     known = [k for k in load_known() if k.get('status') == 'known' and k.get('property') == pid]
     run.known = known
     run.known_hits = []
-    # a broken proof tie widens the search
+    # a broken proof / extraction tie widens the search: thorough-size exploration under a time limit
     run.widen = bool(info['failed'])
+    if run.widen and args.tier == 'quick':
+        run.tier = 'thorough'
+        run.deadline = time.time() + 300
+        run.notes.append('a theorem or the extraction no longer checks (%s): searching with thorough-size inputs for 300 s' % ', '.join(info['failed'][:4]))
     status = 0
     verdict_lines = []
     api_broken = None
